@@ -33,6 +33,10 @@ ENG_A = "simio"
 ENG_B = "simnet"
 
 CHECKS = {
+ "C09": dict(level="exploration", engine=ENG_A, design="DESIGN.md §4 C09",
+   technique="deterministic simulation: meta tables under seed-drawn operation histories written to a counting simulated sink and read back through short-reading sources; complete files read back with/without preamble through sources whose first read returns from 1 byte up, and by path",
+   text="Seeded search over file meta tables (odd/even strings, every subset of optional fields, private information) x attribute-operation histories x transport segmentations. After every step the recorded group length must equal the bytes the sink accepted after the group-length element (independent parse: exactly group 0002 inside), and the table must read back equal. Complete files written by write_all must read back identically from a byte source with or without the 128-byte preamble under any read segmentation (first read from 1 byte up) and by path.",
+   note="By-path reads go through the real file system (temp dir); only the byte-source variant is under simulated segmentation. Trusted: independent meta parser in sim/dcmref."),
  "C07": dict(level="exploration", engine=ENG_A, design="DESIGN.md §4 C07",
    technique="deterministic simulation: odd-length streams from an independent encoder served through a simulated source (short reads, EINTR) into the real eager/lazy readers; invariant checked after every token: reported position == bytes the source handed out",
    text="Seeded search over data sets in which elements of every VR (incl. fixed-width binary VRs with a length that is not a multiple of the unit, inside items and defined-length sequences) declare odd lengths, x 3 syntaxes x {Accept, NextEven, Fail} x eager/lazy x read segmentations. After every token the reader's position() (captured by an observer around the public StatefulDecode) must equal the bytes the simulated source handed out; Accept must stay aligned and consume the stream exactly, NextEven one byte more per odd value, Fail must report an error at the first odd element.",
